@@ -388,7 +388,7 @@ func (e *Engine) runUnit(c *Contract) (u *Unit) {
 	}
 	for _, r := range c.Requires {
 		if call, ok := r.Expr.(*ast.CallExpr); ok {
-			if id, ok := call.Fun.(*ast.Ident); ok && id.Name == "held" && len(call.Args) == 1 {
+			if id, ok := call.Fun.(*ast.Ident); ok && (id.Name == "held" || id.Name == "heldw") && len(call.Args) == 1 {
 				sev := u.specEv(st, pos, u.name+" requires")
 				k := u.lockKeySpec(sev, call.Args[0])
 				st.held[k] = true
